@@ -275,6 +275,16 @@ def trace_for(cmd, prop, timeout, mem_gb):
     draws = [int(x) for x in re.findall(r'^\s+__draw=(\d+)', out, re.M)]
     return draws, out, dt
 
+def first_failure_trace(cmd, timeout, mem_gb):
+    """C18: one counterexample for whichever check fails first (--stop-on-fail); returns (draws, violated description, output)."""
+    cmd = [c for c in cmd if c != '--slice-formula']
+    rc, out, dt = run(cmd + ['-DVERIF_NOWITNESS', '--stop-on-fail', '--trace'], timeout=timeout, mem_gb=mem_gb)
+    draws = [int(x) for x in re.findall(r'^\s+__draw=(\d+)', out, re.M)]
+    m = re.search(r'Violated property:\s*\n\s*file (\S+) function (\S+) line (\d+).*\n\s*(.*)\n', out)
+    desc = m.group(4).strip() if m else ''
+    fn = m.group(2) if m else ''
+    return draws, desc, fn, out, dt
+
 def native_replay(job, work, inc, draws, tag, sanitize=False):
     """Build harness.cpp natively (real header, no translation) and feed it the recorded choice stream."""
     wd = os.path.join(work, 'replay-' + tag); os.makedirs(wd, exist_ok=True)
